@@ -313,11 +313,11 @@ class BlackbirdProgram:
                     func = sym.lambdify(par, a)
 
                     try:
-                        vals = {str(p): kwargs[str(p)] for p in par}
+                        vals = [kwargs[str(p)] for p in par]
                     except KeyError:
                         raise ValueError("Invalid value for free parameter provided")
 
-                    elements[idx] = func(**vals)
+                    elements[idx] = func(*vals)
             return populated
 
         # set values for args and kwargs in operations
@@ -331,11 +331,11 @@ class BlackbirdProgram:
                     func = sym.lambdify(par, a)
 
                     try:
-                        vals = {str(p): kwargs[str(p)] for p in par}
+                        vals = [kwargs[str(p)] for p in par]
                     except KeyError:
                         raise ValueError("Invalid value for free parameter provided")
 
-                    op['args'][idx] = func(**vals)
+                    op['args'][idx] = func(*vals)
 
                 elif isinstance(a, list) or (isinstance(a, np.ndarray) and a.dtype == object):
                     op['args'][idx] = substitute_elements(a)
@@ -346,11 +346,11 @@ class BlackbirdProgram:
                     func = sym.lambdify(par, v)
 
                     try:
-                        vals = {str(p): kwargs[str(p)] for p in par}
+                        vals = [kwargs[str(p)] for p in par]
                     except KeyError:
                         raise ValueError("Invalid value for free parameter provided")
 
-                    op['kwargs'][k] = func(**vals)
+                    op['kwargs'][k] = func(*vals)
 
                 elif isinstance(v, list) or (isinstance(v, np.ndarray) and v.dtype == object):
                     op['kwargs'][k] = substitute_elements(v)
@@ -363,11 +363,11 @@ class BlackbirdProgram:
                 func = sym.lambdify(par, v)
 
                 try:
-                    vals = {str(p): kwargs[str(p)] for p in par}
+                    vals = [kwargs[str(p)] for p in par]
                 except KeyError:
                     raise ValueError("Invalid value for free parameter provided")
 
-                prog._var[k] = func(**vals)
+                prog._var[k] = func(*vals)
             # or encapsulated in an array
             elif isinstance(v, np.ndarray):
                 # look through the array and, if there are any parameters,
@@ -379,11 +379,11 @@ class BlackbirdProgram:
                         func = sym.lambdify(par, v[i][j])
 
                         try:
-                            vals = {str(p): kwargs[str(p)] for p in par}
+                            vals = [kwargs[str(p)] for p in par]
                         except KeyError:
                             raise ValueError("Invalid value for free parameter provided")
 
-                        populated_array[i][j] = func(**vals)
+                        populated_array[i][j] = func(*vals)
 
                     prog._var[k] = populated_array
 
